@@ -10,6 +10,7 @@ import (
 	"bufio"
 	"fmt"
 	"os"
+	"reflect"
 	"sort"
 	"strings"
 	"sync"
@@ -36,12 +37,24 @@ func concMain(g int) {
 	for sc.Scan() {
 		lines = append(lines, sc.Text())
 	}
+	// fixed PDUs whose elements have accessors that do real work (identity text conversions): a null-scheme IMSI SUCI, a 5G-GUTI,
+	// an IMEISV, an NSSAI — shared read-only between all goroutines below
+	fixed := []string{
+		"7e004179000d0102f839f0ff00000000004778",
+		"7e004179000bf202f839cafe0000000001",
+		"7e004179000d0102f839f0ff000000000047782f020101",
+		"7e005c000d0102f839f0ff00000000004778",
+	}
+	for _, h := range fixed {
+		lines = append(lines, "dec plain "+h)
+	}
 	seq := make([]string, len(lines))
 	for i, l := range lines {
 		seq[i] = runOp(l)
 	}
 	// shared decoded messages (read-only use from all goroutines)
 	type shared struct {
+		in   []byte // the buffer the message was decoded from (goroutine 0 keeps overwriting it while the others read the message)
 		m    *nas.Message
 		show string
 		enc  string
@@ -53,7 +66,7 @@ func concMain(g int) {
 			if b, ok := unhex(t[2]); ok {
 				in := append([]byte{}, b...)
 				if m, _ := decodeEntry("plain", &in); m != nil {
-					s := shared{m: m, show: showNas(m)}
+					s := shared{in: in, m: m, show: showNas(m) + readAll(m)}
 					s.enc = safely(func() string {
 						out, err := m.PlainNasEncode()
 						if err != nil {
@@ -130,9 +143,17 @@ func concMain(g int) {
 					note(fmt.Sprintf("%s => concurrent %s, sequential %s", lines[i], r, seq[i]))
 				}
 			}
+			if w == 0 {
+				// the receive buffers are reused by their owner: a decoded message that still points into one is a race
+				for k := range sh {
+					for i := range sh[k].in {
+						sh[k].in[i] ^= 0xff
+					}
+				}
+			}
 			for k := range sh {
 				s := sh[(k+w)%len(sh)]
-				if got := showNas(s.m); got != s.show {
+				if got := showNas(s.m) + readAll(s.m); got != s.show {
 					note("shared decoded message reads differently under concurrent readers")
 				}
 				enc := safely(func() string {
@@ -156,4 +177,60 @@ func concMain(g int) {
 	if mismatches > 0 {
 		os.Exit(1)
 	}
+}
+
+// readAll calls every argument-less Get* accessor of every element of a decoded message (the text conversions of identities
+// included) and renders the results: read-only use of a shared message, as a caller would do from several goroutines
+func readAll(m *nas.Message) string {
+	var sb strings.Builder
+	visitIE := func(name string, v reflect.Value) {
+		if v.Kind() == reflect.Ptr {
+			if v.IsNil() {
+				return
+			}
+		} else if v.CanAddr() {
+			v = v.Addr()
+		} else {
+			return
+		}
+		t := v.Type()
+		for i := 0; i < t.NumMethod(); i++ {
+			mt := t.Method(i)
+			if !strings.HasPrefix(mt.Name, "Get") || mt.Type.NumIn() != 1 {
+				continue
+			}
+			func() {
+				defer func() {
+					if r := recover(); r != nil {
+						fmt.Fprintf(&sb, "%s.%s=panic;", name, mt.Name)
+					}
+				}()
+				out := v.Method(i).Call(nil)
+				fmt.Fprintf(&sb, "%s.%s=", name, mt.Name)
+				for _, o := range out {
+					fmt.Fprintf(&sb, "%v,", o.Interface())
+				}
+				sb.WriteString(";")
+			}()
+		}
+	}
+	visitFam := func(fv reflect.Value) {
+		for i := 1; i < fv.NumField(); i++ {
+			f := fv.Field(i)
+			if f.Kind() != reflect.Ptr || f.IsNil() {
+				continue
+			}
+			body := f.Elem()
+			for j := 0; j < body.NumField(); j++ {
+				visitIE(body.Type().Field(j).Name, body.Field(j))
+			}
+		}
+	}
+	if m.GmmMessage != nil {
+		visitFam(reflect.ValueOf(m.GmmMessage).Elem())
+	}
+	if m.GsmMessage != nil {
+		visitFam(reflect.ValueOf(m.GsmMessage).Elem())
+	}
+	return sb.String()
 }
